@@ -20,12 +20,17 @@ pub fn run(_args: &[String]) -> i32 {
     let comm = ["JPY", "Yen", "¥"];
     let adecl = |n: usize| match n {
         0 => String::new(),
+        // alias lines after / between other sub-directives of the block
+        4 => "account Assets:Bank\n    note main account\n    alias Bank\n    ; a comment\n    alias B2\n\n".to_owned(),
+        5 => "account Assets:Bank\n    alias Bank\n    note main account\n    alias B2\n\n".to_owned(),
         1 => decl("account", "Assets:Bank", &["Bank", "B2"]),
         2 => decl("account", "Assets:Bank", &["Bank", "B2"]) + &decl("account", "Assets:Bank", &["Bank"]),   // block repeated
         _ => decl("account", "Assets:Bank", &["Bank", "Bank", "B2"]),                                        // alias line repeated
     };
     let cdecl = |n: usize| match n {
         0 => String::new(),
+        4 => "commodity JPY\n    note yen\n    alias Yen\n    format 1,000 JPY\n    alias ¥\n\n".to_owned(),
+        5 => "commodity JPY\n    format 1,000 JPY\n    alias Yen\n    ; c\n    alias ¥\n\n".to_owned(),
         1 => decl("commodity", "JPY", &["Yen", "¥"]),
         2 => decl("commodity", "JPY", &["Yen", "¥"]) + &decl("commodity", "JPY", &["Yen"]),
         _ => decl("commodity", "JPY", &["Yen", "Yen", "¥"]),
@@ -33,8 +38,8 @@ pub fn run(_args: &[String]) -> i32 {
     let body = |a1: &str, c1: &str, a2: &str, c2: &str| {
         format!("2024/01/01 one\n    {}    1000 {}\n    Equity\n\n2024/01/02 two\n    {}    500 {} = 1500 {}\n    Equity\n\n", a1, c1, a2, c2, c2)
     };
-    for ad in 1..4 {
-        for cd in 1..4 {
+    for ad in 1..6 {
+        for cd in 1..6 {
             let canonical = adecl(ad) + &cdecl(cd) + &body("Assets:Bank", "JPY", "Assets:Bank", "JPY");
             let want = match run_real(&canonical) {
                 Real::Ok(b) => b,
